@@ -163,9 +163,11 @@ func ApplySchemas(w *World, schemas []string, prop string) {
 				c.Ensures = append(c.Ensures, mustClause("ensures", "forall(r, !locked(r))", props, "schema:lock"))
 				c.AllLoopInv = append(c.AllLoopInv, mustClause("invariant", "forall(r, !locked(r))", props, "schema:lock"))
 			}
+			w.CallbackInv = append(w.CallbackInv, mustClause("invariant", "forall(r, !locked(r))", props, "schema:lock"))
 		case strings.HasPrefix(s, "protect:"):
 			policy := strings.TrimPrefix(s, "protect:")
 			heaps := w.policyHeaps(policy)
+			w.CallbackProtect = append(w.CallbackProtect, heaps...)
 			reach := w.reachFrom(readAPIRoots)
 			var fs []*ssa.Function
 			for f := range reach {
